@@ -742,7 +742,11 @@ class C09(Prop):
     title = 'Value semantics: immutables never change, mutables never serve stale identity'
     lean_targets = ['BtcVerif.Props.C09']
     table_groups = []
-    theorems = ['BtcVerif.C09.' + t for t in ()]
+    theorems = ['BtcVerif.C09.' + t for t in (
+        'inv_init', 'inv_step', 'inv_reachable', 'refines_value_spec', 'refines_from', 'step_refines',
+        'immutable_reach', 'cache_correct', 'no_shared_mutable', 'immutable_setattr_rejected',
+        'immutable_delattr_rejected', 'sighash_preserves_heap', 'verify_preserves_heap', 'sighash_keeps_objects',
+        'verify_keeps_objects')]
     anchors = [('bitcoin/core/serialize.py', q) for q in (
         'Serializable.GetHash', 'Serializable.__eq__', 'Serializable.__hash__',
         'ImmutableSerializable.__setattr__', 'ImmutableSerializable.__delattr__', 'ImmutableSerializable.GetHash',
